@@ -68,6 +68,14 @@ theorem gateSeq_cons (applied : Nat) (joint : Bool) (pend last v : Nat) (vs : Li
       ((gateJ applied pend joint v) :: (gateSeq applied joint (if isConfData (gateJ applied pend joint v) then last + 1 else pend) (last + 1) vs).1,
        (gateSeq applied joint (if isConfData (gateJ applied pend joint v) then last + 1 else pend) (last + 1) vs).2) := rfl
 
+/-- `lostDuring` is not idle: on `(1 2)` with learner 3, the entry `enter autoLeave [remove 3, remove 3, add 3]` (seen in a generated
+    schedule) keeps 3 in the configuration — now as a voter — but its `Progress` was deleted and re-created on the way: `keepsProg` is
+    false for node 2 (raft id 3), so `applyOneJ` forgets its `Match`, as etcd's fresh `Progress` does. -/
+theorem lost_and_readded :
+    lostCC ⟨{1, 2}, ∅, {3}, ∅, false⟩ (.enter true [⟨.removeNode, 3⟩, ⟨.removeNode, 3⟩, ⟨.addNode, 3⟩]) = {3} ∧
+    applyCC ⟨{1, 2}, ∅, {3}, ∅, false⟩ (.enter true [⟨.removeNode, 3⟩, ⟨.removeNode, 3⟩, ⟨.addNode, 3⟩]) = ⟨{1, 2, 3}, {1, 2}, ∅, ∅, true⟩ ∧
+    lostCC ⟨{1, 2}, ∅, {3}, ∅, false⟩ (.enter true [⟨.addNode, 3⟩]) = ∅ := by decide
+
 #print axioms wonVotesJ_quorum
 #print axioms maybeCommitJ_spec
 end RHJ
